@@ -204,7 +204,10 @@ class Lexer:
 
     def t_RPAR(self, token):
         r'\)'
-        token.lexer.pop_state()
+        if token.lexer.lexstatestack:
+            token.lexer.pop_state()
+        else:
+            self.errors.append(("Unmatched ')'.", token.lexer.lineno))
         return token
 
     def t_ANY_BOOLEAN(self, token):
